@@ -764,6 +764,8 @@ class PubKeyV4(PubKey):
     def created_datetime(self, val):
         if val.tzinfo is None:
             warnings.warn("Passing TZ-naive datetime object to PubKeyV4 packet")
+            # its fields are read as UTC when the packet is written; keep it comparable with parsed (aware) times
+            val = val.replace(tzinfo=timezone.utc)
         self._created = val
 
     @created.register(int)
